@@ -24,7 +24,7 @@ float formatting); ``contains()`` / object comparison use persistent objects fet
 the same session; ``many_to_one != obj`` is read with the object semantics the comparator
 implements on purpose (``fk != pk OR fk IS NULL``), the docstring leaves it open.
 
-Fires on the unchanged tree (candidate genuine defect, proposed patch in
+Fired on the unchanged tree when written (fixed in /repo by 667b36e; proposed patch in
 selftest/C41/proposed_fixes): ``legacy-exists-raises:explicit-select_from-not-first-column-entity``
 - ``Query.exists()`` adds ``select_from(<entity of the first column>)`` to a query that
 already has ``select_from(<other entity>)`` plus two joins and then fails with "Can't
